@@ -3,6 +3,7 @@ import Slu.Scalar
 import Slu.Model.Readers
 -- HANDLER readers => Slu.Drv.Readers.handle
 -- HANDLER readers_bad => Slu.Drv.Readers.handleBad
+-- HANDLER readers_fmt => Slu.Drv.Readers.handleFmt
 /-
 Driver for the families `readers` / `readers_bad` (C16).
 
@@ -105,7 +106,7 @@ def fmtTag (c : Case) : String := c.p "fmt"
 def tagsOf (c : Case) : List String :=
   let fmt := fmtTag c
   [s!"ty={c.ty}", s!"fmt={fmt}", s!"sym={c.p "sym"}/{c.p "diag"}", s!"vstyle={c.p "vstyle"}", s!"status={c.p "status"}"] ++
-  (if fmt == "hb" || fmt == "rb" then [s!"pform={c.p "pform"}", s!"letter={c.p "letter"}", s!"rhs={c.p "rhs"}", s!"tight={c.p "tight"}"]
+  (if fmt == "hb" || fmt == "rb" then [s!"pform={(c.p "pform").replace "," ";"}", s!"letter={c.p "letter"}", s!"rhs={c.p "rhs"}", s!"tight={c.p "tight"}"]
    else [s!"base={c.p "base"}", s!"order={c.p "order"}", s!"dups={if c.pNat "dups" > 0 then 1 else 0}"]) ++
   (if c.p "hdr" == "compat" then ["hdr=compat"] else []) ++ (if c.pNat "longtok" > 0 then ["longtok=1"] else [])
 
@@ -247,5 +248,27 @@ def handleBad (c : Case) : Res :=
   else if st.startsWith "signal" then
     Res.propFalse s!"malformed file ({c.p "mut"}, fmt={c.p "fmt"}): killed by {st}" tags
   else { Res.ok true tags "robust" with }
+
+/-- descriptor grammar: Prop = the parser returned the count and width written in the descriptor;
+Corr = the model's parsers return the same on the same buffer (field + stale tail) -/
+def handleFmt (c : Case) : Res :=
+  let chars (k : String) (n : Nat) : List Char := ((c.int k).toList.take n).map fun b => Char.ofNat b.toNat
+  let want := c.int "want"; let got := c.int "got"
+  let pv := c.p "pv"
+  let tags := [s!"ty={c.ty}", s!"letter={c.p "letter"}", s!"pv={pv.replace "," ";"}"]
+  let shown := String.ofList ((chars "fbuf" 20).filter (· ≠ ' '))
+  if got[0]! ≠ want[0]! ∨ got[1]! ≠ want[1]! then
+    Res.propFalse s!"integer descriptor {String.ofList (chars "ibuf" 16)} parsed as count {got[0]!} width {got[1]!}" tags
+  else if got[2]! ≠ want[2]! ∨ got[3]! ≠ want[3]! then
+    let trait := if pv.contains ',' then "fixed-format value descriptor with a comma after the scale factor, as in (1P,3E10.3): " else ""
+    Res.propFalse s!"{trait}descriptor {shown} parsed as count {got[2]!} width {got[3]!}" tags
+  else
+    -- the C parsers see the whole 100-byte buffer; so does the model
+    match parseIntFormat (chars "ibuf" 99), parseFloatFormat (chars "fbuf" 99) with
+    | some (k, w), some ff =>
+      if (k : Int) ≠ got[0]! ∨ (w : Int) ≠ got[1]! then Res.corr s!"integer descriptor: model ({k},{w}) impl ({got[0]!},{got[1]!})" tags
+      else if (ff.count : Int) ≠ got[2]! ∨ (ff.width : Int) ≠ got[3]! then Res.corr s!"descriptor {shown}: model ({ff.count},{ff.width}) impl ({got[2]!},{got[3]!})" tags
+      else { Res.ok true tags "exact" with }
+    | _, _ => Res.corr s!"the model rejects descriptor {shown}" tags
 
 end Slu.Drv.Readers
